@@ -69,7 +69,7 @@ def obligations(tier):
                 continue
             obs.append({'h': 'gen', 'kind': kind, 'stack': stack, 'ann': [a, b], 'prefix': '/api' if a != 'prefix' else ''})
         # explicit parameter / result schemas handed over by the user, own and shared between two methods
-        for anns in (['explicit'], ['explicit', 'none'], ['shared_explicit', 'shared_explicit'], ['none', 'explicit']):
+        for anns in (['explicit'], ['explicit', 'none'], ['shared_explicit', 'shared_explicit'], ['none', 'explicit'], ['examples_null'], ['examples_null', 'examples']):
             obs.append({'h': 'gen', 'kind': kind, 'stack': stack, 'ann': anns, 'prefix': '/api'})
         if stack in ('doc', 'base+doc'):
             # docstring sections that leave things out: no type, empty description, summary only
@@ -201,6 +201,17 @@ def h_gen(ob):
                 kw['tags'] = tags
                 user_objects[f'tags{i}'] = tags
                 mk.append(t)
+            elif a == 'examples_null':
+                # an example whose documented VALUE is null (a method returning None / an optional parameter)
+                nm = f'\u2603{i}\u2603nullexample'
+                if kind == 'openapi':
+                    ex = [openapi.MethodExample(params={'a': None}, result=None, version='2.0', summary=nm)]
+                else:
+                    ex = [openrpc.MethodExample(name=nm, params=[openrpc.ExampleObject(value=None, name='a')],
+                                                result=openrpc.ExampleObject(value=None, name='result'))]
+                kw['examples'] = ex
+                user_objects[f'examples{i}'] = ex
+                mk.append(nm)
             elif a == 'examples':
                 # OpenAPI uses the example summary as a dict key (a symbolic key would be realised): concrete there
                 nm = marker(i, f'ex{i}') if kind == 'openrpc' else f'\u2603{i}\u2603example'
